@@ -46,7 +46,7 @@ package service
 // One flush: at most one INSERT is sent; every promise of the batch that was
 // still pending is completed with exactly the outcome of THAT insert, and only
 // after it returned (the ghost doErr does not exist before).
-//@ func (*InsertServiceV2).fetchLoopIteration [C01]
+//@ func (*InsertServiceV2).fetchLoopIteration [C01,C02]
 //@   check at-most-one-insert: doCalls == old(doCalls) || doCalls == old(doCalls) + 1
 //@   check taken-batch-is-sent: portion != nil ==> doCalls == old(doCalls) + 1
 //@   check outcome: doCalls == old(doCalls) + 1 ==> (forall k int :: 0 <= k && k < len(waiting) ==> settled(waiting[k], doErr))
